@@ -97,13 +97,19 @@ def run_quality(cfg):
     base = [z3.And(x >= 0, x <= 60) for x in mq + bq + [tq, tm]]
     obs = [(S(mq[i]), S(bq[i])) for i in range(n)]
     ins = (pos, "insTT")
+    single = z3.Bool("single_allele_site")
+    state = {}
 
     def run():
         prof = Profile("q")
         prof.min_quality, prof.min_mapq = S(tq), S(tm)
-        half = n // 2
+        # the site shows two alleles, or every read there shows the same one
+        half = 0 if eng.branch(single) else n // 2
+        state["half"] = half
         covd = {pos: {"_": obs[:half], "T>A": obs[half:]},
                 pos + 1: {"_": [(60, 60)]}}
+        if not half:
+            del covd[pos]["_"]
         cov = Coverage(gene, prof, None, covd, {ins: (3, 2)}, {})
         f = cov.filtered(Coverage.quality_filter)
         return cov, f
@@ -120,7 +126,8 @@ def run_quality(cfg):
         # table pass through
         same = (len(f._coverage.get(pos + 1, {}).get("_", [])) == 1
                 and f._indels == {ins: (3, 2)} and f is not cov
-                and len(cov._coverage[pos]["_"]) + len(cov._coverage[pos]["T>A"]) == n)
+                and len(cov._coverage[pos].get("_", [])) + len(cov._coverage[pos]["T>A"])
+                == n)
         t0 = time.time()
         s_, mdl = eng.prove([], z3.And(goals + [z3.BoolVal(same)]))
         ob(res, f"quality n={n}: kept = exactly the observations with baseq >= "
@@ -130,7 +137,7 @@ def run_quality(cfg):
             vals = {"mq": [int(symx.model_value(mdl, x)) for x in mq],
                     "bq": [int(symx.model_value(mdl, x)) for x in bq],
                     "tq": int(symx.model_value(mdl, tq)), "tm": int(symx.model_value(mdl, tm))}
-            rp = {"kind": "quality", "n": n, **vals}
+            rp = {"kind": "quality", "n": n, "single": state["half"] == 0, **vals}
             okk, msg = replay(rp)
             res["stats"]["replays"] = res["stats"].get("replays", 0) + 1
             if okk:
@@ -150,8 +157,11 @@ def replay_quality(o):
     n = o["n"]
     prof = Profile("q", min_quality=o["tq"], min_mapq=o["tm"])
     obs = list(zip(o["mq"], o["bq"]))
-    half = n // 2
-    cov = Coverage(gene, prof, None, {pos: {"_": obs[:half], "T>A": obs[half:]}}, None, {})
+    half = 0 if o.get("single") else n // 2
+    table = {pos: {"_": obs[:half], "T>A": obs[half:]}}
+    if not half:
+        del table[pos]["_"]
+    cov = Coverage(gene, prof, None, table, None, {})
     f = cov.filtered(Coverage.quality_filter)
     got = collections.Counter(f._coverage.get(pos, {}).get("_", [])
                               + f._coverage.get(pos, {}).get("T>A", []))
@@ -183,8 +193,9 @@ def sym_raw(gene, cn_list, muts, extra_profile=True):
         alts = bypos.get(pos, [])
         if alts:
             base.append(z3.Sum(alts) <= totals[pos])
-        r = z3.Real(f"ref_{pos}")
-        base.append(r == totals[pos] - (z3.Sum(alts) if alts else 0))
+        # an expression, not a fresh variable: the real Coverage.total() then sums to the
+        # concrete depth and depth * threshold stays linear
+        r = totals[pos] - (z3.Sum(alts) if alts else 0)
         xs[Mutation(pos, "_")] = r
         counts[Mutation(pos, "_")] = S(r)
     prof = Profile("verif")
@@ -679,7 +690,7 @@ def replay_counts(o):
     cn_sol = CNSolution(gene, 0, cn_list)
 
     def want(m):
-        t = hq.total(m.pos)
+        t = stagelib.table_depth(hq, m.pos)
         c = counts.get(m, 0)
         okk = c >= max(prof.min_coverage, t * prof.threshold / 20)
         if m.op != "_":
@@ -714,7 +725,7 @@ def replay_counts(o):
             if an not in gene.alleles:
                 continue
             alive = any(all(counts.get(v, 0) >= max(prof.min_coverage,
-                                                     cov.total(v.pos) * prof.threshold / 20)
+                                                     stagelib.table_depth(cov, v.pos) * prof.threshold / 20)
                             for v in gene.alleles[a].func_muts) for a in c.alleles)
             if alive != (an in cfgs):
                 bad.append(an)
